@@ -10,8 +10,9 @@ REPO = os.environ.get('VERIF_REPO', '/repo')
 # anchored functions (properties.jsonl C01/C02/C11 anchors): whole classes of the router package + the routing part of Ombott
 WHOLE = ['ombott/router/radidict.py', 'ombott/router/radirouter.py', 'ombott/router/filter_factory.py',
          'ombott/router/parser.py', 'ombott/router/sym_stream.py']
-OMBOTT_FUNCS = {'to_route', 'add_route', 'remove_route', 'route', 'decorator', 'on_route', 'remove_route_hook', 'error',
-                'wrapper', 'handler', '_handle', 'with_method_shortcuts', 'injector', 'proxy', 'routes'}
+OMBOTT_FUNCS = ('with_method_shortcuts', 'Ombott.to_route', 'Ombott.add_route', 'Ombott.remove_route', 'Ombott.route',
+                'Ombott.routes', 'Ombott.on_route', 'Ombott.remove_route_hook', 'Ombott.error', 'Ombott.handler',
+                'Ombott._handle')
 
 
 def stmts(path, only=None):
@@ -32,7 +33,7 @@ def stmts(path, only=None):
             visit(ch, name)
     visit(tree, None)
     if only is not None:
-        out = {ln: fn for ln, fn in out.items() if any(part in only for part in fn.split('.'))}
+        out = {ln: fn for ln, fn in out.items() if any(fn == o or fn.startswith(o + '.') for o in only)}
     return out
 
 
@@ -48,7 +49,8 @@ def main(ids):
         # module/class-level statements are executed at import: only count statements inside functions
         st = {ln: fn for ln, fn in st.items() if _in_function(path, ln)}
         h = hit.get(path, set())
-        miss = sorted(ln for ln in st if ln not in h)
+        ends = _stmt_heads(path)
+        miss = sorted(ln for ln in st if not any(x in h for x in range(ln, ends.get(ln, ln) + 1)))
         tot += len(st)
         cov += len(st) - len(miss)
         print('%-36s %4d/%4d' % (path, len(st) - len(miss), len(st)))
@@ -56,6 +58,20 @@ def main(ids):
         for ln in miss:
             print('     %4d %-34s %s' % (ln, st[ln][-34:], src[ln - 1].strip()[:90]))
     print('TOTAL %d/%d' % (cov, tot))
+
+
+def _stmt_heads(path):
+    """for compound statements: the head spans from its first line to the line before its body (a multi-line
+    condition is reported by the tracer on the line of the expression, not of the `if (`)"""
+    tree = ast.parse(open(os.path.join(REPO, path)).read())
+    out = {}
+    for node in ast.walk(tree):
+        body = getattr(node, 'body', None)
+        if isinstance(node, ast.stmt) and isinstance(body, list) and body and hasattr(body[0], 'lineno'):
+            out[node.lineno] = max(node.lineno, body[0].lineno - 1)
+        elif isinstance(node, ast.stmt) and getattr(node, 'end_lineno', None):
+            out[node.lineno] = node.end_lineno
+    return out
 
 
 _FUNC_LINES = {}
